@@ -4,6 +4,7 @@ histories (AllocGen.tla) that are replayed into the real Dlmalloc over a simulat
 every recorded step against the invariants of AllocAbs (AllocTrace.tla)."""
 import concurrent.futures
 import copy
+import re
 import time
 
 from vlib import core
@@ -108,6 +109,20 @@ def run(tier):
         probes = {}
         for inv in ("NeverNull", "NeverTwoLive", "NeverUnmapDuringFree"):
             probes[inv] = A.probe_violable(chk, "AllocAbs_MC03q.cfg", inv, {}, inv)
+        # algorithm level: the chunk-level design refines AllocAbs, keeps the layout invariants
+        # and shows the slack of NoGratuitousMap sufficient (DlHeapMC.tla)
+        dl = core.run_tlc("DlHeapMC.tla", "DlHeapMC.cfg", workers=4, timeout=1200, xmx="4g", coverage=True)
+        core.tlc_must_pass(dl, "DlHeapMC (chunk-level design => AllocAbs)")
+        chk.add_tlc(dl)
+        dcov = {}
+        for m in re.finditer(r"^<(Do?D\w+|D\w+) line \d+, col \d+ to line \d+, col \d+ of module DlHeapMC>: (\d+):(\d+)", dl.out, re.M):
+            dcov[m.group(1)] = max(dcov.get(m.group(1), 0), int(m.group(3)))
+        silent = [a for a in ("DBeginMalloc", "DBeginFree", "DoDTakeFree", "DTakeTop", "DSysAlloc", "DSysRefused", "DRetNull",
+                              "DFreeCoalesce", "DTrim", "DoDReleaseSeg", "DRetFree") if dcov.get(a, 0) == 0]
+        if silent:
+            raise core.ToolError("actions of DlHeapMC never taken: %s (%s)" % (silent, dcov))
+        chk.extra["chunk_level_design"] = {"module": "DlHeapMC.tla", "states": dl.distinct, "action_coverage": dcov,
+                                           "checked": ["all AllocAbs invariants", "LayoutOK", "RefinesAbs", "SlackSufficient"]}
         return res, cov, probes
     fut_design = pool.submit(design)
 
@@ -128,7 +143,7 @@ def run(tier):
     for h in fixed:
         ops = A.bind_history(h, allocs, resizes)
         for osd in ("b", "a", "d"):
-            plans.append({"kind": "hist", "slots": nslots, "ops": ops, "os": osd, "refuse_each": osd == "b", "src": "tlc-fixed"})
+            plans.append({"kind": "hist", "slots": nslots, "ops": ops, "os": osd, "refuse_each": osd == "b", "walk": True, "src": "tlc-fixed"})
     n_fixed = len(plans)
     # the same structures over other boundary alphabets, started from a non-empty, churned heap
     rng = A.rng_for(chk, "c03")
@@ -138,7 +153,7 @@ def run(tier):
         al, rs = random_alphabet(rng, k, nalloc, nresize, big_ok=(i % 4 == 0))
         plans.append({"kind": "hist", "slots": nslots, "ops": A.bind_history(h, al, rs), "os": rng.choice("bad"),
                       "oseq": [rng.choice("bad") for _ in range(4)], "refuse_each": i % 3 == 0,
-                      "warm": rng.randrange(1, 1 << 30) if i % 2 == 0 else 0, "classes": classes, "src": "tlc-rotated"})
+                      "warm": rng.randrange(1, 1 << 30) if i % 2 == 0 else 0, "classes": classes, "walk": i % 2 == 1, "src": "tlc-rotated"})
     # seeded random long histories with random placement and random refusals
     n_rand, n_ops = (100, 300) if quick else (1000, 600)
     rand_plans = []
